@@ -201,6 +201,13 @@ func c06Testing(r *Run, recs []EncRec) {
 				}
 			}
 		}
+		// a logfmt record stays free of colour sequences, dump included (the colours belong to the coloured format)
+		if rec.Cfg.Mode == "logfmt" && !strings.Contains(rec.Msg, "\x1b") {
+			if _, changed := sanitizeValues(rec.Attrs); !changed && bytes.IndexByte(T, 0x1b) >= 0 {
+				fail("C06/testing-dump/logfmt-colour", fmt.Sprintf("under go test: a logfmt record (error dump included) holds an escape byte at offset %d although neither the message nor a value does", bytes.IndexByte(T, 0x1b)))
+				continue
+			}
+		}
 		// values contribute no raw control bytes (LF of the dump's own line structure aside)
 		if len(sp) == 1 {
 			a, b := ctlProfileNoLF(T), ctlProfileNoLF(sp[0])
